@@ -92,6 +92,10 @@ class BaseFunctionSpace(AbstractFunctionSpace, UFLObject):
         """Return label of boundary domains to differentiate restricted and unrestricted."""
         return self._label
 
+    def _repr_label(self):
+        """Label argument for repr (a non-default label distinguishes spaces)."""
+        return f", label={self._label!r}" if self._label else ""
+
     def ufl_sub_spaces(self):
         """Return ufl sub spaces."""
         return ()
@@ -144,7 +148,7 @@ class BaseFunctionSpace(AbstractFunctionSpace, UFLObject):
 
     def __repr__(self):
         """Representation."""
-        return f"BaseFunctionSpace({self._ufl_domain!r}, {self._ufl_element!r})"
+        return f"BaseFunctionSpace({self._ufl_domain!r}, {self._ufl_element!r}{self._repr_label()})"
 
     @property
     def value_shape(self) -> tuple[int, ...]:
@@ -177,7 +181,7 @@ class FunctionSpace(BaseFunctionSpace, UFLObject):
 
     def __repr__(self):
         """Representation."""
-        return f"FunctionSpace({self._ufl_domain!r}, {self._ufl_element!r})"
+        return f"FunctionSpace({self._ufl_domain!r}, {self._ufl_element!r}{self._repr_label()})"
 
     def __str__(self):
         """String."""
@@ -208,7 +212,7 @@ class DualSpace(BaseFunctionSpace, UFLObject):
 
     def __repr__(self):
         """Representation."""
-        return f"DualSpace({self._ufl_domain!r}, {self._ufl_element!r})"
+        return f"DualSpace({self._ufl_domain!r}, {self._ufl_element!r}{self._repr_label()})"
 
     def __str__(self):
         """String."""
